@@ -364,6 +364,8 @@ class Grammar:
             for prod in prods:
                 weights[prod] += learning_rate * extra_weights[prod]
                 total_weights += weights[prod]
+            if total_weights == 0:
+                continue  # every production of this rule has weight zero: nothing to normalise
             for prod in prods:
                 weights[prod] = weights[prod] / total_weights
 
